@@ -3,11 +3,24 @@ import itertools
 import z3
 from .types import *  # noqa
 
-_fresh = itertools.count()
+_fresh = [0]
 
 
 def fresh_name(prefix):
-    return '%s!%d' % (prefix, next(_fresh))
+    _fresh[0] += 1
+    return '%s!%d' % (prefix, _fresh[0])
+
+
+def fresh_counter():
+    return _fresh[0]
+
+
+def fresh_index(name):
+    """the counter value a fresh name was created with, or None for global symbols"""
+    head, _, tail = name.rpartition('!')
+    if head and tail.isdigit() and not name.startswith('str!'):
+        return int(tail)
+    return None
 
 
 class V(object):
